@@ -227,6 +227,7 @@ class BuiltinMixin:
     def bi_isinstance(self, args, kw, st, cx, node):
         v, t = args
         ts = t.items if isinstance(t, VTuple) else [t]
+        ts = [self.as_type(x) for x in ts]
         cs = []
         for x in ts:
             if not isinstance(x, VType) or x.qn is None:
@@ -311,6 +312,10 @@ class BuiltinMixin:
 
     def bi_all(self, args, kw, st, cx, node):
         items = self.iter_items(args[0], st, cx)
+        if items is None and isinstance(args[0], VList) and isinstance(args[0].sort.elem, TBoolS):
+            v = args[0]
+            i = z3.FreshConst(z3.IntSort(), "ai")
+            return [(st, VBool(z3.ForAll([i], z3.Implies(z3.And(i >= 0, i < v.sort.len(v.t)), z3.Select(v.sort.arr(v.t), i)))))]
         if items is None:
             raise Unsupported("all() over symbolic iterable that is not a comprehension")
         return [(st, VBool(z3.And(*[truth(i) for i in items]) if items else z3.BoolVal(True)))]
@@ -423,10 +428,44 @@ class BuiltinMixin:
         raise Unsupported("set() of %r" % (v,))
 
     def bi_sorted(self, args, kw, st, cx, node):
-        c = self.reg.contracts.get("builtins.sorted")
-        if c is None:
-            raise Unsupported("sorted without assumed contract")
-        raise Unsupported("sorted: use the specialised contract via `sorted_by`")
+        """assumed contract of builtins.sorted(xs, key=f, reverse=r): the result is a permutation of xs (witnessed by an
+        injective index map) ordered by key; stability is not modelled (ties may come in any order)"""
+        xs = args[0]
+        if isinstance(xs, VTuple):
+            xs = lift_list(xs)
+        if not isinstance(xs, VList):
+            raise Unsupported("sorted of %r" % (xs,))
+        keyf = kw.get("key")
+        rev = kw.get("reverse", VBool(False))
+        self.assumed_contracts.add("builtins.sorted (permutation ordered by key; ties unordered)")
+        ls = xs.sort
+        ys = fresh(ls, "sorted")
+        n = ls.len(xs.t)
+        sig = z3.FreshConst(z3.ArraySort(z3.IntSort(), z3.IntSort()), "perm")
+        inv = z3.FreshConst(z3.ArraySort(z3.IntSort(), z3.IntSort()), "perminv")
+        i = z3.FreshConst(z3.IntSort(), "si")
+        j = z3.FreshConst(z3.IntSort(), "sj")
+        inr = lambda t: z3.And(t >= 0, t < n)
+        st.pc.append(ls.len(ys.t) == n)
+        st.pc.append(canonical_list(ys.t, ls))
+        st.pc.append(z3.ForAll([i], z3.Implies(inr(i), z3.And(inr(z3.Select(sig, i)), z3.Select(inv, z3.Select(sig, i)) == i,
+                                                             z3.Select(ls.arr(ys.t), i) == z3.Select(ls.arr(xs.t), z3.Select(sig, i))))))
+        st.pc.append(z3.ForAll([j], z3.Implies(inr(j), z3.And(inr(z3.Select(inv, j)), z3.Select(sig, z3.Select(inv, j)) == j))))
+
+        def key_of(elem):
+            if keyf is None:
+                return elem
+            s2 = st.copy()
+            r = self.call_function(keyf, [elem], {}, s2, cx.child(spec=True, acc=[]))
+            if len(r) != 1:
+                raise Unsupported("sorted: key function forks")
+            st.pc.extend(r[0][0].pc[len(st.pc):])
+            return r[0][1]
+        ki = coerce(key_of(list_get(ys, i)), Int).t
+        kj = coerce(key_of(list_get(ys, j)), Int).t
+        rv = truth(rev)
+        st.pc.append(z3.ForAll([i, j], z3.Implies(z3.And(inr(i), inr(j), i < j), z3.If(rv, ki >= kj, ki <= kj))))
+        return [(st, ys)]
 
     def bi_reversed(self, args, kw, st, cx, node):
         items = self.iter_items(args[0], st, cx)
@@ -552,6 +591,11 @@ class BuiltinMixin:
     def bi_replace(self, args, kw, st, cx, node):
         return [(st, VStr(F_replace_all(args[0].t, args[1].t, args[2].t)))]
 
+    def bi_float_text(self, args, kw, st, cx, node):
+        "str(x) of a python float (assumed contract of CPython: shortest round-trip repr; inf/-inf/nan when not finite)"
+        from .sym_call import F_float_str
+        return [(st, VStr(F_float_str(args[0].t)))]
+
     def bi_is_space(self, args, kw, st, cx, node):
         return [(st, VBool(is_ws_char(args[0].t)))]
 
@@ -606,6 +650,35 @@ class BuiltinMixin:
         for o in objs:
             t = z3.Store(t, o.t, z3.Select(new, o.t))
         return [(st, VBool(new == t))]
+
+    def _field_arrays(self, st, cx, name, cls=None):
+        s = self.field_sort(name, cls)
+        k = self.heap_key(name, cls)
+        return s, self.heap_arr(cx.pre, k, s), self.heap_arr(st, k, s)
+
+    def bi_monotone(self, args, kw, st, cx, node):
+        "monotone('field'): for every object that existed before the call the list field only grew (old value is a prefix)"
+        name = args[0].conc()
+        s, old, new = self._field_arrays(st, cx, name)
+        o = z3.FreshConst(z3.IntSort(), "mo")
+        i = z3.FreshConst(z3.IntSort(), "mi")
+        lo, ln = z3.Select(old, o), z3.Select(new, o)
+        return [(st, VBool(z3.ForAll([o], z3.Implies(z3.And(o > 0, o < cx.pre.top),
+                                                    z3.And(s.len(lo) <= s.len(ln),
+                                                           z3.ForAll([i], z3.Implies(z3.And(i >= 0, i < s.len(lo)),
+                                                                                     z3.Select(s.arr(ln), i) == z3.Select(s.arr(lo), i))))))))]
+
+    def bi_stable_except(self, args, kw, st, cx, node):
+        "stable_except('field', obj...): objects that existed before the call keep their value of the field, except the listed ones"
+        name = args[0].conc()
+        s, old, new = self._field_arrays(st, cx, name)
+        o = z3.FreshConst(z3.IntSort(), "so")
+        ex = [o != a.t for a in args[1:]]
+        return [(st, VBool(z3.ForAll([o], z3.Implies(z3.And(o > 0, o < cx.pre.top, *ex), z3.Select(new, o) == z3.Select(old, o)))))]
+
+    def bi_live(self, args, kw, st, cx, node):
+        "live(obj): a non-null object allocated in the current state"
+        return [(st, VBool(z3.And(args[0].t > 0, args[0].t < st.top)))]
 
     def bi_same_class(self, args, kw, st, cx, node):
         return [(st, VBool(self.cls_of(args[0]) == self.cls_of(args[1])))]
